@@ -8,6 +8,11 @@
 (*  dedup: a list of records as text (owner, class, type, RDATA text, TTL as   *)
 (*         two 16-bit limbs) and what dns.Dedup returned: for each surviving   *)
 (*         record its index in the input (pointer identity) and its TTL.       *)
+(*  law  : two records WITHOUT a wire form (the library refuses to pack at     *)
+(*         least one: a list with a repeated key ...), given by the element    *)
+(*         numbers la, lb their lists hold; dup / rdup = IsDuplicate in both   *)
+(*         orders, self = a with itself and with a record built the same way,  *)
+(*         copy = a with its Copy, both orders (Dup!LawOK).                    *)
 EXTENDS Dup, TraceBase
 
 VARIABLE l
@@ -23,6 +28,7 @@ DedupOK(e) == LET d == DedupIdx(e.list) IN
               /\ \A k \in 1..Len(d) : e.out[k].i = d[k].i /\ e.out[k].ttl = d[k].ttl
 
 Judge(e) == CASE e.ev = "pair"  -> PairOK(e)
+              [] e.ev = "law"   -> LawOK(e.la, e.lb, e.dup, e.rdup, e.self, e.copy)
               [] e.ev = "dedup" -> DedupOK(e)
               [] OTHER -> FALSE
 
